@@ -4,5 +4,5 @@ CONSTANTS
   MaxOps = 3
   OptSet = "quick"
   EmitReplay = TRUE
-INVARIANTS WF ObsInv MergeIsJointBuild DeleteIsBuildOfRest WeedPartition Emit
+INVARIANTS WF ObsInv MergeIsJointBuild InitialMergeIsJointBuild DeleteIsBuildOfRest WeedPartition Emit
 CHECK_DEADLOCK FALSE
